@@ -14,6 +14,7 @@ INVARIANTS
   ForgetMatchesReport
   NoWaste
   PruneStatsOK
+  ReaderOrder
 PROPERTIES
   R_PackBeforeIndex
   R_IndexBeforeSnapshot
